@@ -19,9 +19,22 @@ RULE = (
     "Non-trivial = program with >= 2 scopes."
 )
 ASSUMPTIONS = ["ground truth (which scope declares what, which scope encloses which) is known from the generator", "no wildcard USE; interface bodies excluded"]
-BOUNDS = {"quick": dict(shadow_subsets=2, intrinsics=2, decl_kinds=3), "thorough": dict(shadow_subsets=2, intrinsics=4, decl_kinds=3, pairs=True)}
+BOUNDS = {"quick": dict(shadow_subsets=2, intrinsics=3, decl_kinds=3), "thorough": dict(shadow_subsets=2, intrinsics=8, decl_kinds=3, pairs=True)}
 
-INTRINSICS = [("sin", "(y)", "f2003"), ("max", "(y, 2)", "f2003"), ("norm2", "(w)", "f2008"), ("size", "(w, 1)", "f2003")]
+# (referenced name, arguments, std, declared name, does the declaration shadow the reference?)
+# - generic names; specific names of generic intrinsics (DABS, AMAX1, DSIN);
+# - a declaration of the GENERIC name next to a reference to a SPECIFIC name
+#   (and vice versa) shadows nothing: they are different names
+INTRINSICS = [
+    ("sin", "(y)", "f2003", "sin", True),
+    ("dabs", "(y)", "f2003", "dabs", True),
+    ("dsin", "(y)", "f2003", "sin", False),
+    ("max", "(y, 2)", "f2003", "max", True),
+    ("norm2", "(w)", "f2008", "norm2", True),
+    ("amax1", "(y, 2.0)", "f2003", "amax1", True),
+    ("max", "(y, 2)", "f2003", "amax1", False),
+    ("size", "(w, 1)", "f2003", "size", True),
+]
 DECLS = ["real :: %s", "integer :: %s(3)", "use mm, only: %s"]
 
 
@@ -116,13 +129,13 @@ def number(units):
 def render(units, ref_scopes, intr, shadows):
     """shadows: dict scope_idx -> decl kind index.  Every scope in ref_scopes
     gets a reference.  Returns source text."""
-    name, args, _ = intr
+    name, args, _, declname, _eff = intr
     lines = []
 
     def spec(s, ind):
         out = []
         if s.idx in shadows:
-            out.append(ind + DECLS[shadows[s.idx]] % name)
+            out.append(ind + DECLS[shadows[s.idx]] % declname)
         out.append(ind + "real :: y, w(3), x%d" % s.idx)
         return out
 
@@ -206,7 +219,7 @@ def render(units, ref_scopes, intr, shadows):
 
 
 def expected_tables(units, intr, shadows, ref_scopes=()):
-    name = intr[0]
+    name = intr[3]
 
     def rec(s):
         syms = {"y", "w", "x%d" % s.idx}
@@ -273,7 +286,7 @@ def judge(units, flat, src, std, intr, shadows, ref_scopes):
         out.append(("table-tree", "symbol tables differ from the scope tree\n  observed: %s\n  model   : %s" % (obs, exp)))
     classes = reference_classes(o.tree, flat, ref_scopes)
     for i in sorted(ref_scopes):
-        want_intrinsic = not visible_shadow(flat[i], shadows)
+        want_intrinsic = not (intr[4] and visible_shadow(flat[i], shadows))
         got = classes.get(i)
         if got is None:
             out.append(("reference-missing", "reference in scope %d not found in the tree" % i))
@@ -327,9 +340,9 @@ def run(task):
             if o.ok:
                 res.results.add(h64(repr(observed_tables()), repr(sorted(reference_classes(o.tree, flat, ref_scopes).items()))))
             for kind, detail in vs:
-                res.violation("C16|%s|%s" % (kind, feature(shape, shadows, flat)), "shape %s intrinsic %s shadows %s std=%s\n%s\n--- source:\n%s" % (shape, intr[0], {flat[i].kind + " " + flat[i].name: DECLS[k] % intr[0] for i, k in shadows.items()}, std, detail, src), {"shape": shape, "intr": list(intr), "shadows": {str(k): v for k, v in shadows.items()}, "std": std}, cost=len(src) + 1000 * len(shadows))
+                res.violation("C16|%s|%s" % (kind, feature(shape, shadows, flat)), "shape %s reference %s shadows %s std=%s\n%s\n--- source:\n%s" % (shape, intr[0], {flat[i].kind + " " + flat[i].name: DECLS[k] % intr[3] for i, k in shadows.items()}, std, detail, src), {"shape": shape, "intr": list(intr), "shadows": {str(k): v for k, v in shadows.items()}, "std": std}, cost=len(src) + 1000 * len(shadows))
         if res.evals % 60 == 1:
-            res.sample({"shape": shape, "shadows": {flat[i].name: DECLS[k] % intr[0] for i, k in shadows.items()}, "source": src})
+            res.sample({"shape": shape, "shadows": {flat[i].name: DECLS[k] % intr[3] for i, k in shadows.items()}, "source": src})
     return res
 
 
